@@ -368,7 +368,10 @@ fn eval_cli(x: &RefArray, scratch: &Scratch) -> (u64, Vec<Viol>) {
                     let a = cli_stats_decimals(&y, &fold_stats, false, 45, scratch);
                     let b = cli_stats_decimals(&y, &fold_stats, true, 45, scratch);
                     match (&a, &b) {
-                        (Ok(p), Ok(q)) if p.iter().zip(q).all(|(u, v)| rel(*u, *v)) => {}
+                        // statistics that scale with the spectrum are compared relatively; the
+                        // scale-free ones (f2, f3, f4, Fst, ... of order one, possibly exactly zero)
+                        // with the absolute slack of the other cases
+                        (Ok(p), Ok(q)) if fold_stats.iter().zip(p.iter().zip(q)).all(|(st, (u, v))| if SCALE_LINEAR.contains(st) { rel(*u, *v) } else { printed_same(*u, *v) }) => {}
                         _ => viols.push((
                             format!("C14|cli|fold-invariance-tiny|{}", shape_class(shape)),
                             format!("shape {shape:?} scaled by {c:e}: `sfs stat -s {} --precision 45` = {a:?} but behind `sfs fold --fill zero --precision 45` = {b:?}", fold_stats.join(",")),
